@@ -72,7 +72,8 @@ def core_py(e, elem=False):
         return c(e.test) and c(e.body) and c(e.orelse)
     if t == "Lambda":
         a = e.args
-        return not (a.posonlyargs or a.args or a.vararg or a.kwonlyargs or a.kw_defaults or a.kwarg or a.defaults) and c(e.body)
+        return (c(e.body) and len(a.defaults) <= len(a.posonlyargs) + len(a.args) and len(a.kw_defaults) == len(a.kwonlyargs)
+                and all(c(d) for d in a.defaults) and all(d is None or c(d) for d in a.kw_defaults))
     if t == "NamedExpr":
         return isinstance(e.target, ast.Name) and c(e.value)
     if t == "Attribute":
